@@ -629,6 +629,7 @@ def transitivity_bd(A):
                         = 2 * (K(K-1)/2 - diag(A^2))
                         = K(K-1) - 2(diag(A^2))
     '''
+    A = np.array(A, dtype=float)  # bool/int adjacency: + and dot must be arithmetic
     S = A + A.T  # symmetrized input graph
     K = np.sum(S, axis=1)  # total degree (in+out)
     cyc3 = np.diag(np.dot(S, np.dot(S, S))) / 2  # number of 3-cycles
@@ -655,6 +656,7 @@ def transitivity_bu(A):
     T : float
         transitivity scalar
     '''
+    A = np.array(A, dtype=float)  # bool/int adjacency: dot must be arithmetic
     tri3 = np.trace(np.dot(A, np.dot(A, A)))
     tri2 = np.sum(np.dot(A, A)) - np.trace(np.dot(A, A))
     return tri3 / tri2
